@@ -29,6 +29,14 @@ CLAIMED = {
    text="Proof: for every board satisfying the representation invariant and validity and every one of the 2^15 encodings (symbolic 16-bit move), IsPseudoLegal(m) == pseudo(pos, m) of the rule specification, using the attack-table contracts of C12 and IsAttacked's contract. The check found defect F2 (promotion bits ignored), repaired by a fix: commit.",
    note="The generator side (every generator emits exactly the pseudo set) is C01; the picker/UCI gates that call IsPseudoLegal are not yet under contract.",
    ref="DESIGN.md section 5 C05"),
+ "C06": dict(
+   text="Proof of the sequential clauses for every abort point: alphaBeta, quiescence and iterativeDeepen are verified (recursion through their own contracts, move loops by invariants) to leave every scalar attribute of the board and the hash history exactly as they found them on every path - including aborts (each poll of the stop channel is a nondeterministic choice), illegal moves, null-move pruning, goto Fin, pruning breaks and the abort fallback loop - and to leave the history stack and the move-store frame stack balanced, so the same instance can be searched again; the abort flag is sticky. Make/undo pairs are used through abstract views whose only assumed fact is the round trip proved under C03.",
+   note="Not claimed in this revision: legality of the returned move and the final-root clauses (they need the PV contracts of C07 and the picker's exhaustiveness), the UCI `go` numeric path (defect F3: `go depth N` narrows to int8, N >= 128 returns bestmove 0000 on a non-final root; recorded as a known finding), and the spsa build. Views of callees (picker.Next, tt.LookUp/Insert, eval, ranker) are frame-only and listed as trusted; termination is not proved.",
+   ref="DESIGN.md section 5 C06"),
+ "C08": dict(
+   text="Proof of the budget clause and of the no-store-after-abort mechanism: incrementNodes never takes the node counter past a non-negative hard budget and is the only writer of it in the search package (frame of every other function under contract excludes it except through incrementNodes' callers, whose contracts carry the same bound), so a hard budget of N nodes is never exceeded along alphaBeta/quiescence recursion; in alphaBeta the fail-high store (tt.Insert) and the history update (FailHigh) that consume child results are reached only with the abort flag clear, for every arrival time of the stop signal.",
+   note="Not decided by this technique (stated in DESIGN.md): run-to-run reproducibility and soft-limit/hard-budget equivalence are two-run hyperproperties of the whole engine state. Observation recorded in DESIGN.md: the two final stores of alphaBeta can be reached with the abort flag set after an aborted null-move search when no move is playable (the stored value does not depend on the aborted child).",
+   ref="DESIGN.md section 5 C08"),
  "C10": dict(
    text="Proof of the counting clause: Threefold returns min(3, 1 + number of earlier history entries at distances 4, 6, 8, ... equal to the current hash) for histories of any length (loop invariant against an inductively specified count); ResetHash leaves a one-entry history; MakeMove/MakeNullMove push exactly one entry and keep earlier entries (history clauses).",
    note="Equality of hashes stands for equality of positions modulo Zobrist collisions (probabilistic, cannot be proved). That positions cannot recur at distance 2 and that entries at odd distances have the other side to move are not mechanised in this revision. axioms occUnfold/occRange are the inductive definition of the count (trusted).",
